@@ -89,10 +89,14 @@ def hashLoop : List Int → Int → Int → List Int × List (Int × Int) → Li
   | [], _, _, acc => acc
   | loc :: rest, i, sum, acc => hashLoop rest (i + 1) (sum + loc) (addTables i sum loc.toNat acc)
 
-/-- `parseHashRuleSliceInfos(locations, slices)`; `none` = `ErrLocationsCount` -/
+/-- `parseHashRuleSliceInfos(locations, slices)`; `none` = `ErrLocationsCount`, or
+    (since the `fix:` commit "reject negative and all-zero locations") a negative
+    entry (`ErrLocationsNegative`) or no sub table at all (`ErrLocationsEmpty`) -/
 def parseHashRuleSliceInfos (locations : List Int) (slices : List String) :
     Option (List Int × List (Int × Int)) :=
   if locations.length ≠ slices.length then none
+  else if locations.any (fun l => decide (l < 0)) then none
+  else if (hashLoop locations 0 0 ([], [])).1 = [] then none
   else some (hashLoop locations 0 0 ([], []))
 
 /-- The configuration of a global table (`models.Shard` of type `global`);
